@@ -484,6 +484,10 @@ def _range__port(
             if port.find("-") > -1:
                 operator = "range"
                 port = port.replace("-", " ")
+        elif operator == "range":
+            if len(ports_) != 1 or ports_[0].count("-") != 1:
+                raise ValueError(f"invalid ports={ports_} for {operator=}, one range A-B expected")
+            port = port.replace("-", " ")
 
         port_o = Port(
             line=f"{operator} {port}",
